@@ -2,10 +2,26 @@ package main
 
 func init() {
 	addMutants("C01", []Mutant{
+		{ID: "c01-bare-nxdomain-relayed", File: "middleware/resolver/resolver.go", Expect: "C01-R8|resolve|bypass|upstream-message",
+			Old: "\t\tif resp.Rcode == dns.RcodeNameError {\n\t\t\t// A bare NXDOMAIN carries no denial proof.", New: "\t\tif resp.Rcode == dns.RcodeNameError && rs.req.CheckingDisabled {\n\t\t\t// A bare NXDOMAIN carries no denial proof.",
+			Why: "re-introduces F-C01-1 (fixed in caa9244)"},
+		{ID: "c01-empty-noerror-fabricated-unchecked", File: "middleware/resolver/resolver.go", Expect: "C01-R8|resolve|bypass|fabricated-reply",
+			Old: "\tif _, err := r.authority(ctx, rs.req, resp, rs.parentDS, rs.servers.Zone); err != nil {\n\t\treturn nil, err\n\t}\n\n\t// create new msg safer", New: "\t// create new msg safer",
+			Why: "re-introduces F-C01-2 (fixed in caa9244)"},
 		{ID: "c01-filter-after-wildcard-check", File: "middleware/resolver/resolver.go", Expect: "C01-R9",
 			Old: "\t\t\t\t\tresp.Ns = dnsutil.FilterRRsToZone(resp.Ns, signer)\n\n\t\t\t\t\t// RFC 4035 §5.3.4: a wildcard-expanded answer is only",
 			New: "\t\t\t\t\tdefer func() { resp.Ns = dnsutil.FilterRRsToZone(resp.Ns, signer) }()\n\n\t\t\t\t\t// RFC 4035 §5.3.4: a wildcard-expanded answer is only",
 			Why: "foreign unsigned NSEC records reach the wildcard next-closer proof (seeded C01)"},
+	})
+	addMutants("C05", []Mutant{
+		{ID: "c05-chase-ad-from-alias-only", File: "middleware/cache/entry_wire_chase.go", Expect: "C05-R9",
+			Old: "\tad := true\n\thasDNSSEC := false\n\tfor i := range segs {\n\t\tanTotal += segs[i].anCount\n\t\tad = ad && segs[i].ad\n", New: "\tad := segs[0].ad\n\thasDNSSEC := false\n\tfor i := range segs {\n\t\tanTotal += segs[i].anCount\n",
+			Why: "AD=1 over an unvalidated chase target on the wire path only (seeded C05)"},
+	})
+	addMutants("C06", []Mutant{
+		{ID: "c06-dnssec-flag-answer-only", File: "middleware/cache/entry_wire.go", Expect: "C06-R8",
+			Old: "\t\tif i < answered {\n\t\t\tswitch rr.Type {", New: "\t\tif i < int(header.ANCount) {\n\t\t\tswitch rr.Type {",
+			Why: "signed negative answers served unstripped to DO=0 clients on the byte path (seeded C06)"},
 	})
 	addMutants("C14", []Mutant{
 		{ID: "c14-rsa-compare-right-aligned", File: "middleware/resolver/dnssec/rsa.go", Expect: "C14-R5",
